@@ -670,10 +670,11 @@ func (ex *Exec) call(fn *ssa.Function, args []Val, env []Val) (ret Val) {
 				ex.lazyDone = map[*ssa.Package]bool{}
 			}
 			ex.lazyDone[fn.Pkg] = true
-			was := ex.lazyRunning
+			was, par := ex.lazyRunning, ex.par
 			ex.lazyRunning = true
+			ex.par = nil // initialisation happens before main: its accesses belong to no thread
 			ex.call(fn.Pkg.Func("init"), nil, nil)
-			ex.lazyRunning = was
+			ex.lazyRunning, ex.par = was, par
 		}
 	}
 	if fn.Pkg != nil && fn.Pkg.Pkg.Path() == "errors" && fn.Name() == "init" {
